@@ -126,7 +126,11 @@ def rt_unit(kind, version):
             b.fields["attrib"] = DictV([("w", V.sym(b.tag + "_w", "real"))])
             b.fields["label"] = M.opt_str(V, b.tag + "_label")
         V.assume(to_z3(src.fields["mult"], "int") >= 1)   # multiplicity is canonicalised by the constructors (`mult or 1`): 0 is not a storable value
-        V.witness(lambda ev: {"op": f"roundtrip-{kind}-v{version}", "size": size, "nc": nc if ens else None, "signature": f"{kind}-v{version}"})
+        # the object's atoms may also sit in another (non-copying) container: bond end points are positions in THIS object's atom list
+        shared = V.choose([False, True], "atoms-also-in-another-container") if size in ("2atoms", "parallel-bonds") else False
+        if shared:
+            V.keep = M.share_atoms(V, src, which=[1])
+        V.witness(lambda ev: {"op": f"roundtrip-{kind}-v{version}", "size": size, "nc": nc if ens else None, "shared": shared, "signature": f"{kind}-v{version}" + ("/shared-atoms" if shared else "")})
         V.cover()
         I.target = f"{IO}:{ser}"
         try:
@@ -313,3 +317,9 @@ def _collection(V):
     its = list(I.iterate(V.method(c, "items", []).value))
     V.ensure("collection/values-and-items-decode-per-key", z3.BoolVal(len(vals) == 1 and len(its) == 1 and len(decoded) == n0 + 2 and vals[0] is decoded[n0]
                                                                        and its[0][0] == "k" and its[0][1] is decoded[n0 + 1]))
+
+
+# a library is a Collection over the UKV backend: "reads back under the same key" also after the caller caught a refused write
+# (duplicate key, oversize key) and carried on -- the backend's contract for that history is part of this check (shared unit)
+from contracts import C02_ukv_map as C02
+P.include(C02.P, ["backend.flush/get with a doomed queued write"], why="a refused write does not keep later records of the library from being stored")
